@@ -216,7 +216,7 @@ def g_namespace_isolation(R, tier):
                     elif id(va) in pre:
                         shared.append(f"{n_}: {pre[id(va)]}")
             R.check(f"{nm}/every-mutable-container-attribute-is-owned-by-the-instance", not shared, "; ".join(shared),
-                    replay=dict(kind="history"))
+                    replay=dict(kind="history-pairs"))
 
 
 def g_method_super(R, tier):
